@@ -362,6 +362,9 @@ type script struct {
 	mark func(ctx context.Context, m *dns.Msg) (context.Context, func())
 	// queryer: the internal sub-pipeline
 	query func(ctx context.Context, req *dns.Msg) (*dns.Msg, error)
+	// real: the rest of the chain is this REAL handler instead of the scripted reply (decide_test.go: the
+	// resolver's DNSHandler in its load-shed state); its reply and whatever provenance it attached pass unchanged
+	real middleware.Handler
 
 	downMsg  *dns.Msg // exactly what the downstream wrote (pointer)
 	downSnap *dns.Msg // deep copy taken before it was written
@@ -374,6 +377,14 @@ type scriptedDownstream struct{}
 func (scriptedDownstream) Name() string { return "verif-downstream" }
 func (scriptedDownstream) ServeDNS(ctx context.Context, ch *middleware.Chain) {
 	sc, _ := ctx.Value(scriptKey{}).(*script)
+	if sc != nil && sc.real != nil {
+		orig := ch.Writer
+		ch.Writer = &captureWriter{ResponseWriter: orig, sc: sc}
+		sc.real.ServeDNS(ctx, ch)
+		ch.Writer = orig
+		ch.Cancel()
+		return
+	}
 	if sc == nil || sc.down == nil {
 		ch.Cancel()
 		return
@@ -392,6 +403,21 @@ func (scriptedDownstream) ServeDNS(ctx context.Context, ch *middleware.Chain) {
 	_ = ch.Writer.WriteMsg(m)
 	release()
 	ch.Cancel()
+}
+
+// captureWriter notes what a real downstream handler wrote (the very message: provenance marks are keyed by
+// pointer identity) and hands it on to the writer it found, i.e. dns64's.
+type captureWriter struct {
+	middleware.ResponseWriter
+	sc *script
+}
+
+func (w *captureWriter) WriteMsg(m *dns.Msg) error {
+	if m != nil && w.sc.downMsg == nil {
+		w.sc.downMsg = m
+		w.sc.downSnap = m.Copy()
+	}
+	return w.ResponseWriter.WriteMsg(m)
 }
 
 type scriptedQueryer struct{}
